@@ -16,12 +16,21 @@ def Ty.plain : Ty → Bool
   | .ptr t => t.plain
   | .slice t => t.plain
   | .array _ t => t.plain
+  | .map t => t.plain
   | .strct fs => plainFields fs
   | _ => false
 def plainFields : List (String × String × String × Ty) → Bool
   | [] => true
   | (_, tag, _, t) :: r => !(parseTags tag).2.squash && t.plain && plainFields r
 end
+
+/-- every later key is greater -/
+def keysBelow (k : String) (m : List (String × GoVal)) : Bool := m.all (fun e => decide (k < e.1))
+
+/-- the entries of a map value are kept sorted by key, without duplicates (the canonical form of a Go map) -/
+def keysSorted : List (String × GoVal) → Bool
+  | [] => true
+  | (k, _) :: r => keysBelow k r && keysSorted r
 
 mutual
 /-- the value has the shape of the type (what reflect guarantees for a Go value of that type) -/
@@ -32,8 +41,13 @@ def fits : Ty → GoVal → Bool
   | .slice _, .slice none => true
   | .slice t, .slice (some l) => fitsAll t l
   | .array _ t, .array l => fitsAll t l
+  | .map _, .map none => true
+  | .map t, .map (some m) => fitsVals t m && keysSorted m
   | .strct fs, .strct xs => fitsFields fs xs
   | _, _ => false
+def fitsVals : Ty → List (String × GoVal) → Bool
+  | _, [] => true
+  | t, (_, x) :: r => fits t x && fitsVals t r
 def fitsAll : Ty → List GoVal → Bool
   | _, [] => true
   | t, x :: r => fits t x && fitsAll t r
@@ -380,7 +394,7 @@ theorem fits_zeroOf : ∀ (t : Ty), t.plain = true → fits t (zeroOf t) = true
     exact fitsFields_zero fs h
   | .regexp, h => by simp [Ty.plain] at h
   | .iface, h => by simp [Ty.plain] at h
-  | .map _, h => by simp [Ty.plain] at h
+  | .map _, _ => by simp [zeroOf, fits]
   | .config, h => by simp [Ty.plain] at h
   | .unsupported, h => by simp [Ty.plain] at h
   | .badmap, h => by simp [Ty.plain] at h
@@ -392,5 +406,126 @@ theorem fitsFields_zero : ∀ (fs : List (String × String × String × Ty)), pl
     simp only [zeroFields, fitsFields, Bool.and_eq_true]
     exact ⟨fits_zeroOf t h.1.2, fitsFields_zero r h.2⟩
 end
+
+/-! ### map values: sorted association lists -/
+
+theorem fitsVals_all (t : Ty) (m : List (String × GoVal)) : fitsVals t m = true ↔ ∀ e ∈ m, fits t e.2 = true := by
+  induction m with
+  | nil => simp [fitsVals]
+  | cons e r ih =>
+    obtain ⟨k, x⟩ := e
+    simp [fitsVals, ih]
+
+theorem recValidateMap_all (std : Stdlib) (o : Opts) (t : Ty) (m : List (String × GoVal)) :
+    recValidateMap std o t m = none ↔ ∀ e ∈ m, recValidate std o t [] e.2 = none := by
+  induction m with
+  | nil => unfold recValidateMap; simp
+  | cons e r ih =>
+    obtain ⟨k, x⟩ := e
+    unfold recValidateMap
+    cases h : recValidate std o t [] x with
+    | some err => simp [h]
+    | none => simp [h, ih]
+
+theorem recValidate_map (std : Stdlib) (o : Opts) (t : Ty) (m : List (String × GoVal)) :
+    recValidate std o (.map t) [] (.map (some m)) = recValidateMap std o t m := by
+  conv => lhs; unfold recValidate
+  simp only [runValidators_nil]
+
+theorem str_trichotomy (a b : String) (h1 : ¬ a = b) (h2 : ¬ a < b) : b < a := by
+  have h3 : b ≤ a := String.not_lt.mp h2
+  rcases Classical.em (b < a) with h | h
+  · exact h
+  · exact absurd (String.le_antisymm (String.not_lt.mp h) h3) h1
+
+theorem keysBelow_iff (k : String) (m : List (String × GoVal)) : keysBelow k m = true ↔ ∀ e ∈ m, k < e.1 := by
+  simp [keysBelow]
+
+/-- where an entry of `gmapSet m k v` comes from, for a sorted `m` -/
+theorem mem_gmapSet (m : List (String × GoVal)) (k : String) (v : GoVal) (hs : keysSorted m = true) :
+    ∀ e, e ∈ gmapSet m k v → e = (k, v) ∨ (e ∈ m ∧ e.1 ≠ k) := by
+  induction m with
+  | nil => intro e he; simp [gmapSet] at he; exact Or.inl he
+  | cons kv r ih =>
+    obtain ⟨k', v'⟩ := kv
+    simp only [keysSorted, Bool.and_eq_true] at hs
+    obtain ⟨hb, hsr⟩ := hs
+    rw [keysBelow_iff] at hb
+    intro e he
+    unfold gmapSet at he
+    by_cases h1 : k = k'
+    · simp only [h1, if_true, List.mem_cons] at he
+      rcases he with he | he
+      · exact Or.inl (by rw [he, h1])
+      · refine Or.inr ⟨List.mem_cons_of_mem _ he, ?_⟩
+        intro hk
+        have := hb e he
+        rw [hk, h1] at this
+        exact String.lt_irrefl _ this
+    · simp only [h1, if_false] at he
+      by_cases h2 : k < k'
+      · simp only [h2, if_true, List.mem_cons] at he
+        rcases he with he | he | he
+        · exact Or.inl he
+        · refine Or.inr ⟨by rw [he]; exact List.mem_cons_self, ?_⟩
+          rw [he]; exact fun hk => h1 hk.symm
+        · refine Or.inr ⟨List.mem_cons_of_mem _ he, ?_⟩
+          intro hk
+          have := String.lt_trans h2 (hb e he)
+          rw [hk] at this
+          exact String.lt_irrefl _ this
+      · simp only [h2, if_false, List.mem_cons] at he
+        rcases he with he | he
+        · refine Or.inr ⟨by rw [he]; exact List.mem_cons_self, ?_⟩
+          rw [he]; exact fun hk => h1 hk.symm
+        · rcases ih hsr e he with h | ⟨h, hne⟩
+          · exact Or.inl h
+          · exact Or.inr ⟨List.mem_cons_of_mem _ h, hne⟩
+
+theorem gmapSet_sorted (m : List (String × GoVal)) (k : String) (v : GoVal) (hs : keysSorted m = true) :
+    keysSorted (gmapSet m k v) = true := by
+  induction m with
+  | nil => simp [gmapSet, keysSorted, keysBelow]
+  | cons kv r ih =>
+    obtain ⟨k', v'⟩ := kv
+    have hs0 := hs
+    simp only [keysSorted, Bool.and_eq_true] at hs
+    obtain ⟨hb, hsr⟩ := hs
+    unfold gmapSet
+    by_cases h1 : k = k'
+    · simp only [h1, if_true, keysSorted, Bool.and_eq_true]
+      exact ⟨hb, hsr⟩
+    · simp only [h1, if_false]
+      by_cases h2 : k < k'
+      · simp only [h2, if_true]
+        simp only [keysSorted, Bool.and_eq_true]
+        refine ⟨?_, hb, hsr⟩
+        rw [keysBelow_iff] at hb ⊢
+        intro e he
+        simp only [List.mem_cons] at he
+        rcases he with he | he
+        · rw [he]; exact h2
+        · exact String.lt_trans h2 (hb e he)
+      · simp only [h2, if_false]
+        simp only [keysSorted, Bool.and_eq_true]
+        refine ⟨?_, ih hsr⟩
+        rw [keysBelow_iff] at hb ⊢
+        intro e he
+        rcases mem_gmapSet r k v hsr e he with h | ⟨h, _⟩
+        · rw [h]; exact str_trichotomy k k' h1 h2
+        · exact hb e h
+
+theorem gmapGet_mem (m : List (String × GoVal)) (k : String) (old : GoVal) (h : gmapGet m k = some old) :
+    ∃ e ∈ m, e.2 = old := by
+  unfold gmapGet at h
+  cases hf : m.find? (fun x => x.1 == k) with
+  | none => rw [hf] at h; simp at h
+  | some e =>
+    rw [hf] at h
+    simp only [Option.map_some, Option.some.injEq] at h
+    exact ⟨e, List.mem_of_find?_eq_some hf, h⟩
+
+theorem fits_iface_false (t : Ty) (d : Option Data) : fits t (.iface d) = false := by
+  cases t <;> simp [fits]
 
 end Ucfg
